@@ -228,9 +228,74 @@ def _context(depth, t0, t1, t2, t3, ci):
     return rt.fin(got == want, "matches_context(%r) on %r = %r" % (CONTEXTS[ci], names, got))
 
 
+def ob_pending(si: int, ti: int, mi: int, ni: int, pre: int) -> bool:
+    """post: _"""
+    return rt.run(_pending, si, ti, mi, ni, pre)
+
+
+PENDING_SCHEMAS = ["list", "docmarks", "mx1", "mx5"]
+
+
+def _pending(si, ti, mi, ni, pre):
+    """Import half, the one unit that does not touch lxml: NodeContext.apply_pending decides whether a mark seen on an
+    enclosing element becomes active in the node being built.  A context of type T may only activate marks T allows
+    (else the finished node is schema-invalid: 'marks in places that forbid them'); without a type (open slice context)
+    the mark applies iff some node type that allows it can hold the next node; a mark is never lost or duplicated."""
+    from engine import schemas
+    from engine.oracle import cexpr
+    from harness import common as _c
+    if not (0 <= si < len(PENDING_SCHEMAS)):
+        return rt.SKIP
+    if "si" in P and si != P["si"]:
+        return rt.SKIP
+    si = rt.pick(si, 0, len(PENDING_SCHEMAS) - 1)
+    sch = schemas.get(PENDING_SCHEMAS[si])
+    V = _c.load({"schema": PENDING_SCHEMAS[si], "doc": 0}).V
+    types = [None] + list(sch.nodes.values())
+    marks = list(sch.marks.values())
+    nexts = list(sch.nodes.values())
+    if not (0 <= ti < len(types) and 0 <= mi < len(marks) and 0 <= ni < len(nexts) and 0 <= pre <= len(marks)):
+        return rt.SKIP
+    ti, mi, ni, pre = rt.pick(ti, 0, len(types) - 1), rt.pick(mi, 0, len(marks) - 1), rt.pick(ni, 0, len(nexts) - 1), rt.pick(pre, 0, len(marks))
+    T, M, N = types[ti], marks[mi], nexts[ni]
+    req = {k: "v" for k, a in M.attrs.items() if a.is_required}
+    mark = M.create(req or None)
+    ctx = fd.NodeContext(T, None, [], [mark], True, None, 0)
+    if pre:                                  # one mark already active in the context (pre-1 = its index)
+        O = marks[pre - 1]
+        if T is not None and not V.allows(T.name, O.name):
+            return rt.SKIP
+        ctx.active_marks = [O.create({k: "v" for k, a in O.attrs.items() if a.is_required} or None)]
+    before_active = list(ctx.active_marks)
+    was_in = mark.is_in_set(before_active)
+    ctx.apply_pending(N)
+    act, pend = list(ctx.active_marks), list(ctx.pending_marks)
+    if T is not None:
+        want = V.allows(T.name, M.name)
+    else:
+        want = any(V.allows(pn, M.name) and N.name in cexpr.names_in(V.ast(pn)) for pn in V.nodes)
+    from engine.oracle.marks import ref_add
+    from harness.c13_marks import fm
+    rank = V.mark_rank
+    exp = [fm(m) for m in before_active]
+    if want and not was_in:        # the reference mark algebra decides what adding it to the active set means (exclusion, rank order)
+        exp = ref_add(exp, fm(mark), lambda k: rank[k[0]], lambda x, y: x == y, lambda x, y: V.excludes(x[0], y[0]))
+    ok = True
+    why = None
+    if T is not None and any(not V.allows(T.name, m.type.name) for m in act):
+        ok, why = False, "a mark the context's node type forbids became active"
+    elif [fm(m) for m in act] != exp:
+        ok, why = False, "active marks %r, reference %r" % ([m.type.name for m in act], [e[0] for e in exp])
+    elif (want and not was_in) == mark.is_in_set(pend):
+        ok, why = False, "pending list wrong: a consumed mark must leave it, any other must stay"
+    return rt.fin(ok, why)
+
+
 def obligations(tier, seed):
     T = 200 if tier == "quick" else 900
     obs = []
+    for si in range(len(PENDING_SCHEMAS) if tier != "quick" else 2):
+        obs.append({"name": "pending/%s" % PENDING_SCHEMAS[si], "fn": "ob_pending", "P": {"si": si}, "timeout": T})
     for shape in range(4):
         for link in (False, True):
             extra = [{}]
